@@ -79,6 +79,15 @@ def search(big=False):
             r = DT_Var.thousands_commas(str(i) + suffix)
             if r != '{:,}'.format(i) + suffix:
                 return n, dict(function='thousands_commas', value=str(i) + suffix, output=r, expected='{:,}'.format(i) + suffix)
+    # 5b. thousands_commas only inserts commas: deleting them gives the original text back (any text, not only numbers)
+    for t in ('1234567.', 'Hello.', '.', '1.2.3', '1234..5', '.5', 'x1234.5y', 'Total: 12000.', '', '1000', '-1000.', '1000.0.', 'a.b.'):
+        n += 1
+        r = DT_Var.thousands_commas(t)
+        if r.replace(',', '') != t:
+            return n, dict(function='thousands_commas', value=t, output=r, what='characters other than commas were added or removed')
+        out = HTML('<dtml-var x thousands_commas>')(x=t)
+        if out != r:
+            return n, dict(source='<dtml-var x thousands_commas>', value=t, output=out, expected=r)
     # 6. unquote inverts quote through the tag
     for v in ('%41', 'a b+c', '100%', 'x/y?z=1&w=2', 'é<>'):
         n += 1
